@@ -14,6 +14,7 @@ import (
 	"github.com/cockroachdb/errors/extgrpc"
 	"github.com/cockroachdb/errors/exthttp"
 	"github.com/cockroachdb/errors/oserror"
+	"github.com/cockroachdb/errors/report"
 	"github.com/cockroachdb/redact"
 	"github.com/gogo/protobuf/types"
 
@@ -168,8 +169,21 @@ func Annotations(e error) Rec {
 	o["os"] = fmt.Sprint(oserror.IsPermission(e), oserror.IsExist(e), oserror.IsNotExist(e), oserror.IsTimeout(e))
 	f, l, fn, ok := errors.GetOneLineSource(e)
 	o["source"] = fmt.Sprint(f, l, fn, ok)
+	// the predicates derived from the domain
+	d := errors.GetDomain(e)
+	kept := errors.EnsureNotInDomain(e, func(errors.Domain, error) error { return errNeverDomain }, neverDomain) != errNeverDomain
+	moved := errors.EnsureNotInDomain(e, func(od errors.Domain, err error) error { return errors.HandledInDomain(err, neverDomain) }, d, neverDomain)
+	o["notindomain"] = fmt.Sprint(errors.NotInDomain(e, d), errors.NotInDomain(e, neverDomain, d), errors.NotInDomain(e, neverDomain), errors.NotInDomain(e), kept,
+		moved != nil && errors.GetDomain(moved) == neverDomain)
+	// Temporary(), where the root cause has an opinion
+	if t, ok := errors.UnwrapAll(e).(interface{ Temporary() bool }); ok {
+		o["os"] += fmt.Sprint(" temporary=", t.Temporary())
+	}
 	return o
 }
+
+var neverDomain = errors.NamedDomain("a domain no generated error is in")
+var errNeverDomain = errors.New("EnsureNotInDomain called its constructor for an error that is not in a forbidden domain")
 
 // IsHidingFamily: layers whose safe details embed a rendering of a hidden error.
 func IsHidingFamily(fam string) bool {
@@ -203,6 +217,9 @@ func PerNode(e error) Rec {
 			o[key+".safedetails"] = jsn(sd.SafeDetails)
 		}
 		o[key+".stack"] = StackOf(c)
+		if st := errors.GetReportableStackTrace(c); st != nil {
+			o[key+".stackprint"] = report.PrintStackTrace(st)
+		}
 	}
 	return o
 }
@@ -292,6 +309,7 @@ func PIIFree(e error) Rec {
 	out["redact%v"] = string(redact.Sprint(e).Redact())
 	out["redact%s"] = string(redact.Sprintf("%s", e).Redact())
 	out["redact%+v"] = string(redact.Sprintf("%+v", e).Redact())
+	out["safedetails.Redact"] = errors.Redact(e)
 	var sd []string
 	for _, c := range Nodes(e) {
 		p := errors.GetSafeDetails(c)
